@@ -59,6 +59,8 @@ pub fn make_data<L: SimLang>(eg: &EGraph<L, SimAn>, n: &L) -> AnData {
         "neg" => c(0).map(|a| (p - a) % p),
         // sum over all field elements of a constant is p * c = 0
         "sum" => c(0).map(|_| 0),
+        // r * (sum of a constant) = r * 0
+        "sumr" => c(1).map(|_| 0),
         // let x = e in c  is c
         "let" if L::NAME == "LA" => c(0),
         _ => None,
